@@ -4,6 +4,8 @@ otherwise it only permutes the incident-halfface lists of the edge's two halfedg
 from run import Ob
 from obligations._mesh import MeshHarness, caps as mcaps
 TK = 'OpenVolumeMesh::TopologyKernel'
+import os
+INLINE = os.environ.get('VERIF_INLINE', '0') == '1'   # inline-array vstd mode: CBMC 6.11 gave unreproducible counterexamples with it (DESIGN 2.15); off
 def A(cond, name, n): return '  __CPROVER_assert(%s, "C09.%s.%s");' % (cond, n, name)
 
 def obligations():
@@ -24,7 +26,7 @@ def obligations():
                          call='  { struct EH hh; hh.idx_ = h; TopologyKernel__reorder_incident_halffaces(&m, hh); }',
                          post='\n'.join(post), op='reorder')
         obs.append(Ob(id='C09.' + n, props=['C09', 'C01', 'C12'], tu='kernel', tier='B', roots=[TK + '::reorder_incident_halffaces'],
-                      harness=mh, includes=['wf.h', 'view.h'], copies=[TK], defines=d, unwind=6, covers=2, timeout=900, quick=(on in ('', 'e', 'f')),
+                      harness=mh, includes=['wf.h', 'view.h'], copies=[TK], defines=d, inline_vec=INLINE, unwind=6, covers=2, timeout=900, quick=(on in ('', 'e', 'f')),
                       bounds=dict(vertices=2, edges=2, faces=2, cells=2, face_valence=2, cell_valence=2, incident_list=2),
                       note='real reorder_incident_halffaces against its caller-side contract; bottom-up kinds enabled: %s' % (on or 'none')))
     return obs
